@@ -16,13 +16,13 @@ RULE = ("rectangle pairs by relation class (disjoint, edge/corner touch, nested,
 ASSUMPTIONS = [
     "decision predicates are not judged when the exact quantity lies within 1e-12*scale of the decision boundary (gray zone), nor within [0.5,2]x the code's own tolerance for touches/overlap",
     "the class-wide tolerance is pinned per case to 1e-11*min(extent), the value a fresh process loading a die of that extent gets",
-    "cut coordinates are >= 0 (a negative coordinate means 'halve' in the API)",
+    "cut coordinates are >= 0 (a negative coordinate means 'halve' in the API); rectangles themselves may lie at negative coordinates or straddle an axis, and are then cut at exactly 0 as well",
 ]
 CASES = {"quick": 24000, "thorough": 600000}
 MIN_CASES = {"quick": 6000, "thorough": 200000}
 REQUIRED_CLASSES = ["in_situ", "disjoint", "edge_touch", "corner_touch", "nested", "crossing", "identical", "other_region", "near_miss"]
 REQUIRED_COUNTERS = ["tolerance_set_with_explicit_area", "in_situ_workloads_completed", "moved_in_place_judged", "area_overlap_judged", "mul_judged", "is_inside_judged", "point_inside_judged", "touches_judged",
-                     "split_judged", "grid_judged", "cuttable_true_judged", "cuttable_false_judged", "overlap_judged"]
+                     "split_judged", "grid_judged", "cuttable_true_judged", "cuttable_false_judged", "overlap_judged", "cut_at_coordinate_zero_judged"]
 
 RELS = ["disjoint", "edge_touch", "corner_touch", "nested", "crossing", "identical", "other_region", "near_miss", "random"]
 REGIONS = ["_", "_", "LUT", "DSP", "#"]
@@ -145,6 +145,14 @@ def generate(rng, tier, i):
             break
     else:
         rel = "random"
+    straddle = fam != "float53" and rng.random() < 0.15
+    if straddle:
+        # rectangle a straddles an axis (negative coordinates are ordinary coordinates); the coordinate 0 is then a cut like any other
+        sx = xs[a[0]] + (xs[a[1]] - xs[a[0]]) * F(1, 4)
+        xs = [x - sx for x in xs]
+        if rng.random() < 0.5:
+            sy = ys[a[2]] + (ys[a[3]] - ys[a[2]]) * F(3, 4)
+            ys = [y - sy for y in ys]
     ra = geo.cwh(xs[a[0]], xs[a[1]], ys[a[2]], ys[a[3]])
     rb = geo.cwh(xs[b[0]], xs[b[1]], ys[b[2]], ys[b[3]])
     ext_x, ext_y = geo.fl(xs[-1] - xs[0]), geo.fl(ys[-1] - ys[0])
@@ -172,11 +180,13 @@ def generate(rng, tier, i):
                 lo + 0.01 * other * rng.choice([0.9, 1.1]), lo + w * rng.choice([0.25, 0.1, 0.75, 1 / 3])]
         lat = [geo.fl(v) for v in (xs if w == ra[2] and lo == x0 else ys)]
         cand.append(rng.choice(lat))
+        if lo < 0 < hi:
+            cand.append(0.0)
         cuts.append([c for c in cand if c >= 0])
     return {"cls": rel, "fam": fam, "a": ra + [reg_a, rng.random() < 0.3, rng.random() < 0.3],
             "b": rb + [reg_b, rng.random() < 0.3, rng.random() < 0.3], "ext": [ext_x, ext_y],
             "exact": fam in ("int", "half", "quarter", "large_1e3") and rel != "near_miss" and ox.denominator in (1, 2),
-            "xcuts": cuts[0], "ycuts": cuts[1], "grid": [rng.randint(1, 8), rng.randint(1, 8)]}
+            "xcuts": cuts[0], "ycuts": cuts[1], "grid": [rng.randint(1, 8), rng.randint(1, 8)], "straddle": straddle}
 
 
 def mk(spec):
@@ -418,6 +428,8 @@ def _check_pair(case, ctx):
                         ctx.gray("cuttable_edge")
                 else:
                     ctx.count("cuttable_true_judged")
+                    if c == 0:
+                        ctx.count("cut_at_coordinate_zero_judged")
                     # the pieces of the cut must tile the rectangle
                     ok, sp = ctx.call(a.split_horizontal if axis == "x" else a.split_vertical, c)
                     if not ok:
